@@ -29,8 +29,8 @@ Proof. exact merge_layer_opaque. Qed.
 
 (* prune_below_opaque_sound: LayerMerger.merge (single-layer shortcut and global clip included) returns the
    same picture for the full stack  below ++ top :: above  and for the pruned stack  top :: above,
-   provided `top` really is opaque (hypothesis opaque_layer; WMSSource.is_opaque does not guarantee it for
-   opacity <= 0 or in [0.99, 1): see is_opaque_opacity_refuted). *)
+   provided `top` is opaque: no opacity below 1 (guaranteed by is_opaque, see wms_source_is_opaque_facts)
+   and opaque pixels (the upstream assumption for sources not declared transparent). *)
 Theorem prune_below_opaque_sound :
   forall n o below top above cov,
     opaque_layer top -> sized n top -> Forall (sized n) below ->
@@ -38,16 +38,13 @@ Theorem prune_below_opaque_sound :
     view (result_image (merge n o (top :: above) cov)).
 Proof. exact merge_prune. Qed.
 
-(* what is_opaque = true does guarantee for a WMS source, and the missing part *)
+(* what WMSSource.is_opaque = true guarantees: the source answers (inside resolution range and coverage),
+   is not declared transparent and is not faded by merge *)
 Theorem wms_source_is_opaque_facts :
   forall s, src_is_opaque s = true ->
-    s_wms s = true /\ s_res_ok s = true /\ s_transparent s = false /\ src_blank s = false /\
-    (s_cov s = 0 \/ s_cov s = 1).
+    s_wms s = true /\ s_res_ok s = true /\ truthy (s_transparent s) = false /\ op_lt1 (s_opacity s) = false /\
+    src_blank s = false /\ (s_cov s = 0 \/ s_cov s = 1).
 Proof. exact src_is_opaque_facts. Qed.
-
-Theorem is_opaque_opacity_refuted :
-  exists s, src_is_opaque s = true /\ op_lt1 (s_opacity s) = true.
-Proof. exact Compose_proofs.is_opaque_opacity_refuted. Qed.
 
 (* fast_path_equals_composition_partial: the single-layer shortcut returns the layer image itself; for an
    opaque, unclipped layer its picture equals the picture of the full composition over the background.
@@ -59,15 +56,15 @@ Theorem fast_path_equals_composition_partial :
     view (as_image l) = view (merge_loop n o [l]).
 Proof. exact fast_path_opaque. Qed.
 
-(* in a transparent (RGBA) result a fully transparent layer pixel never changes the picture, whatever the
-   opacity; in a non-transparent result with opacity < 1 it does (Image.blend ignores alpha: finding) *)
+(* a fully transparent pixel of an RGBA layer never changes the picture, for every opacity (None, below 1,
+   above 1), in a transparent result (alpha_composite) and in a non-transparent result (blend + masked paste) *)
 Theorem transparent_pixel_is_neutral_composite :
-  forall op d s, px_a s = 0 -> fl_ltb op fl_one = true -> px_step true true (Some op) d s = d.
+  forall rg op d s, px_a s = 0 -> px_step true true rg op d s = d.
 Proof. exact composite_respects_alpha. Qed.
 
-Theorem blend_ignores_alpha_refuted :
-  exists d s, px_a s = 0 /\ px_step false true (Some (1, -1)) d s <> d.
-Proof. exact Compose_proofs.blend_ignores_alpha_refuted. Qed.
+Theorem transparent_pixel_is_neutral_blend :
+  forall op d s, px_ok d -> px_a d = 255 -> px_a s = 0 -> px_step false true true op d s = d.
+Proof. exact blend_respects_alpha. Qed.
 
 (* combined_layers_preserves_order: for every list of sources, the configured sources and the upstream layer
    names occur in the combined request list in the original order, none lost, none duplicated; every combined
@@ -82,7 +79,19 @@ Theorem combined_only_non_wms_untouched :
                    combined_layers (cur :: rest) = cur :: rest.
 Proof. exact (fun cur rest => combine_from_non_wms rest cur). Qed.
 
-(* the global clip (authorisation limited_to) keeps opaque pixels inside the coverage, but squares the alpha
-   of semi-transparent ones (finding) *)
-Theorem global_clip_alpha_refuted : exists o r, im_px (global_clip o r [false]) <> im_px r.
-Proof. exact Compose_proofs.global_clip_alpha_refuted. Qed.
+(* only compatible sources are combined: both inside their resolution range, same URL, no opacity, and the
+   upper one not explicitly opaque *)
+Theorem combined_only_compatible :
+  forall a b, src_compatible a b = true ->
+    s_res_ok a = true /\ s_res_ok b = true /\ s_transparent b <> Some false /\ s_url a = s_url b /\
+    s_opacity a = None /\ s_opacity b = None.
+Proof. exact src_compatible_facts. Qed.
+
+(* the global clip (authorisation limited_to): pixels outside the coverage become the background, pixels inside
+   keep colour and alpha *)
+Theorem global_clip_keeps_inside :
+  forall o r outside k dflt,
+    length outside = length (im_px r) -> (k < length (im_px r))%nat ->
+    nth k (im_px (global_clip o r outside)) dflt =
+    if nth k outside true then create_px o else nth k (im_px r) dflt.
+Proof. exact global_clip_pixel. Qed.
